@@ -2,3 +2,4 @@ import LeraxModel.Proto
 import LeraxModel.Gae
 import LeraxModel.Env
 import LeraxModel.Rescale
+import LeraxModel.Replay
